@@ -102,8 +102,9 @@ def generate(rng, tier):
             kn = []
             if rng.random() < 0.2:
                 kn = [wire.RR(qt, wire.T_PTR, 4500, f"Foreign.{qt}").to_json()]
+            # (now and then only the first, truncated packet of a longer query gets through: its continuation is lost)
             ops.append({"t": round(tq, 6), "op": "send", "p": "P", "src_port": rng.choice([5353, 5353, 5354, 49152]),
-                        "msg": {"q": [[qt, 12, 0]], "an": kn, "id": rng.choice([0, 77])}})
+                        "msg": {"q": [[qt, 12, 0]], "an": kn, "id": rng.choice([0, 77]), "tc": int(rng.random() < 0.25)}})
     # lookups
     for i, tg in enumerate(targets):
         h = rng.choice(hosts)
@@ -133,6 +134,8 @@ class HostState:
         self.hm = HostModel(start)
         self.log = []  # (t, ident, created_ms|None, ttl) cache mutations in order
         self.heard_log = []  # (t_ms, question key, set(idents)) QM questions heard as an authoritative responder
+        self.heard_amb = []  # the same for assembled truncated queries: entries that may or may not be in place yet
+        self.trains = {}  # (socket, source address, port) -> truncated query being assembled
         self.reg = ModelRegistry()
 
     def known(self, q, t, strict):
@@ -198,18 +201,44 @@ def execute(scenario, seed, overrides=None):
                     S.log.append((t, ident, None, None))
                 return
             # a query heard by h: recorded in the history when h holds registered records that answer it
-            if msg.tc or not S.reg.s:
+            if not S.reg.s or msg.authorities:
                 return
-            known = {r.ident() for r in msg.answers} if not msg.authorities else set()
-            for q in msg.questions:
-                if q.qu:
-                    continue
-                req, opt = S.reg.answers(q)
-                if req or opt:
-                    # only the known answers to this question count (a query may carry several questions)
-                    S.heard_log.append((t * 1000.0, q.key(), {i for i in known if i[0] == q.key()[0] and
-                                                              (q.type in (i[1], wire.T_ANY))}))
-                    stats["heard_as_responder"] += 1
+            known = {r.ident() for r in msg.answers}
+
+            def heard(qs, kn, amb=False):
+                for q in qs:
+                    if q.qu:
+                        continue
+                    req, opt = S.reg.answers(q)
+                    if req or opt:
+                        # only the known answers to this question count (a query may carry several questions)
+                        ent = (t * 1000.0, q.key(), {i for i in kn if i[0] == q.key()[0] and (q.type in (i[1], wire.T_ANY))})
+                        (S.heard_amb if amb else S.heard_log).append(ent)
+                        stats["heard_as_responder"] += 1
+
+            # a truncated query is heard packet by packet (each with its own known answers); when its last packet arrives,
+            # or when the hold timer fires, the whole query is remembered with the union of the known answers and the time
+            # of the last packet - the instant at which that entry appears is not modelled, so it is kept as a possibility
+            src = (rsock.label, addr[0], addr[1])
+            tr = S.trains.get(src)
+            if tr is not None and t - tr["t"] > 0.5 + 1e-6:
+                tr = None
+            if msg.tc:
+                if tr is None:
+                    tr = S.trains[src] = {"qs": [], "kn": set(), "t": t}
+                tr["qs"] += list(msg.questions)
+                tr["kn"] |= known
+                tr["t"] = t
+                heard(msg.questions, known)
+                if len(tr["qs"]) > len(msg.questions) or tr["kn"] != known:
+                    heard(tr["qs"], tr["kn"], amb=True)
+                return
+            if tr is not None:
+                del S.trains[src]
+                heard(list(msg.questions), known)
+                heard(tr["qs"] + list(msg.questions), tr["kn"] | known, amb=True)
+                return
+            heard(msg.questions, known)
 
         w.net.on_rx = on_rx
         orig_host = drv.op_host
@@ -341,7 +370,11 @@ def _oracle(w, drv, sc, hs, stats, out):
                 last = max(cands, key=lambda c: c[0]) if cands else None
                 if last is not None and 0 <= t_ms - last[0] <= 999.0:
                     stats["qm_repeats_within_1s"] += 1
-                    if not (last[1] - known_now) and t_ms - last[0] < 998.9:
+                    # (an assembled truncated query heard since - at the same instant or later - with a known answer the
+                    # instance does not have makes the question due again)
+                    amb_due = any(key == q.key() and last[0] - 1e-6 <= th < t_ms - 1e-6 and (kn - known_now)
+                                  for (th, key, kn) in S.heard_amb)
+                    if not (last[1] - known_now) and t_ms - last[0] < 998.9 and not amb_due:
                         out.add("C13.needless-repeat", f"host {h} repeats QM question {q!r} at {t - t0:.6f}, "
                                 f"{t_ms - last[0]:.3f} ms after it was last asked/heard with a known-answer list it fully "
                                 f"knows ({len(last[1])} records)", gap_ms=round(t_ms - last[0], 1))
@@ -451,7 +484,7 @@ def _oracle(w, drv, sc, hs, stats, out):
                         key = (ty, wire.T_PTR, wire.C_IN)
                         tp_ms = tp * 1000.0
                         cands = [(ta, kn) for (ta, k2, kn) in asked_log if k2 == key and ta < tp_ms - 1e-6]
-                        cands += [(th, kn) for (th, k2, kn) in S.heard_log if k2 == key and th < tp_ms + 2.0]
+                        cands += [(th, kn) for (th, k2, kn) in S.heard_log + S.heard_amb if k2 == key and th < tp_ms + 2.0]
                         q = wire.Q(ty, wire.T_PTR)
                         known_now = set(S.known(q, tp, True)) | set(S.known(q, tp, False))
                         sup = any(-2.0 <= tp_ms - ta <= 999.0 + 2.0 and not (kn - known_now) for ta, kn in cands)
